@@ -146,10 +146,11 @@ func (r *histRunner) doGCPark(op *Op) error {
 					r.clientWritesInGC++
 					e = r.checkGet(cop.K, "read-after-write while GC is parked at "+pl.Point)
 				}
-				if e != nil && r.opts.collisions && r.inGrp[cop.K] && transientReadError(e) {
+				if e != nil && r.opts.collisions && r.inGrp[cop.K] && (transientReadError(e) || strings.Contains(e.Error(), "= tombstone")) {
 					// GC drops the hints of a source file when it starts on it and re-enters them record by record: while the
 					// pass is inside that file, a colliding key that is found through the hints (its tree slot belongs to a
-					// sibling written a moment ago) answers a miss. A miss during the pass is not a wrong value (C05 rules out
+					// sibling written a moment ago) answers a miss (or finds an older tombstone of its own in another file's
+					// hints, which a client sees as a miss as well). A miss during the pass is not a wrong value (C05 rules out
 					// another key's or an older value); the sweep after the pass judges every key
 					r.label("transient_miss_colliding_key_during_pass")
 					e = nil
